@@ -39,41 +39,41 @@ type Violation struct {
 
 // Run is one simulated execution.
 type Run struct {
-	Prop  string
-	Seed  uint64
-	Tier  string
+	Prop    string
+	Seed    uint64
+	Tier    string
 	Variant int // fault position for fault-enumeration properties
-	Sim   *vsim.Sim
-	W     *vsimenv.World
-	Ch    *vsim.Choices
-	Peers []*Peer
+	Sim     *vsim.Sim
+	W       *vsimenv.World
+	Ch      *vsim.Choices
+	Peers   []*Peer
 
 	Inc    int // current agent incarnation (0 = none)
 	Agent  *pfcpiface.PFCPIface
 	Conf   pfcpiface.Conf
 	agents map[int]*pfcpiface.PFCPIface
 
-	Violations []Violation
-	vseen      map[string]bool
-	Ops        []string       // operation/fault trace for samples
-	Probes     map[string]int // rare-condition reach counters
-	Faults     map[string]int // fault kinds that fired
-	Accepted   int            // accepted session operations (non-triviality)
+	Violations   []Violation
+	vseen        map[string]bool
+	Ops          []string       // operation/fault trace for samples
+	Probes       map[string]int // rare-condition reach counters
+	Faults       map[string]int // fault kinds that fired
+	Accepted     int            // accepted session operations (non-triviality)
 	Inconclusive int
-	stateHashes map[uint64]bool
-	skel       []string
-	stopWD     func()
+	stateHashes  map[uint64]bool
+	skel         []string
+	stopWD       func()
 	// FirstOnly: report only the first discrepancy of the run (state-image
 	// properties: later ones are consequences of the diverged state)
-	FirstOnly bool
-	faultCtx  string
-	faultedMod map[uint64]bool
-	Taints    map[uint64]string // UP SEID -> first known-finding trigger applied to the session
-	sharedTaint string
+	FirstOnly       bool
+	faultCtx        string
+	faultedMod      map[uint64]bool
+	Taints          map[uint64]string // UP SEID -> first known-finding trigger applied to the session
+	sharedTaint     string
 	noTaintFallback bool
-	soft     int
-	softNext bool
-	returned   map[int]*bool
+	soft            int
+	softNext        bool
+	returned        map[int]*bool
 }
 
 func (r *Run) Violate(prop, sig, format string, a ...any) {
